@@ -152,6 +152,20 @@ def hostile_value(rng, depth=0):
     return rng.choice([1, "s", None, True, 1.5])
 
 
+def thrower(e):
+    marker = ["kept"]  # noqa: F841 - a local of a frame in the traceback of every exception the hostile programs raise
+    raise e
+
+
+def frames_intact(exc):
+    tb = exc.__traceback__
+    while tb is not None:
+        if tb.tb_frame.f_code is thrower.__code__:
+            return tb.tb_frame.f_locals.get("marker") == ["kept"]
+        tb = tb.tb_next
+    return True
+
+
 def hostile_run(ctx, i):
     """One hostile program against the real library; returns (api problems, reached?)."""
     import contextvars
@@ -206,7 +220,14 @@ def hostile_run(ctx, i):
                         try:
                             block(depth + 1)
                             if rng.random() < 0.4:
-                                raise rng.choice([BadExc("boom"), ValueError(hostile_value(rng)), KeyboardInterrupt(), OddModule("odd"), OddModule2("odd2")])
+                                e0 = rng.choice([BadExc("boom"), ValueError(hostile_value(rng)), KeyboardInterrupt(), OddModule("odd"), OddModule2("odd2")])
+                                if rng.random() < 0.4:
+                                    # PEP 678 notes, as `add_note` leaves them or assigned directly (then anything can be in the list)
+                                    try:
+                                        e0.__notes__ = [rng.choice(["a note", 7, None, hostile_value(rng)]) for _ in range(rng.randint(1, 2))]
+                                    except Exception:  # noqa
+                                        pass
+                                thrower(e0)
                         except _Stop:
                             raise
                         except BaseException as e:  # noqa
@@ -224,6 +245,9 @@ def hostile_run(ctx, i):
                                     call("write_traceback", eliot.write_traceback)
                         if r2:
                             problems.append("__exit__ returned a truthy value")
+                        if exc is not None and not frames_intact(exc):
+                            problems.append("the traceback of the application's exception was altered by the logging calls: the locals of its "
+                                            "frames are gone (post-mortem debugging, suspended generators in it)")
                     elif r < 0.72:
                         call("log_message", eliot.log_message, "h:msg", **fields())
                     elif r < 0.8:
